@@ -268,10 +268,19 @@ Definition elem_dtype (e : elem) : dtype :=
       end
   end.
 
+Definition wf_dtype (d : dtype) : bool :=
+  match d with
+  | DInt _ b => (b =? 1) || (b =? 2) || (b =? 4) || (b =? 8)
+  | DFlt b => (b =? 2) || (b =? 4) || (b =? 8) || (b =? 16)
+  | DCplx b => (b =? 8) || (b =? 16) || (b =? 32)
+  | DStr n | DBytes n => 0 <=? n
+  | _ => true
+  end.
+
 (* a Python float is a binary64, a Python complex a pair of them; a NumPy scalar is a member of its dtype *)
 Definition wf_elem (e : elem) : bool :=
   match e with
-  | ENp d v => holds d v && conforms d v && negb (dtype_eqb d DObj)
+  | ENp d v => holds d v && conforms d v && wf_dtype d && negb (dtype_eqb d DObj)
   | EPy (XFlt f) => fl_fits 8 f
   | EPy (XCplx re im) => fl_fits 8 re && fl_fits 8 im
   | EPy (XNaT _) => false
@@ -385,9 +394,11 @@ Definition np_discover (es : list elem) : res dtype :=
 (* ------------------------------------------------------------------ plans: which code path decides the dtype *)
 Inductive plan :=
 | PKeep (d : dtype)                       (* the operation returns the host array (no missing value, shift 0 ...) *)
-| PFill (d : dtype) (e : elem)            (* util.full_for_fill(d, ., e); assignment / fillna of one element *)
+| PFill (d : dtype) (e : elem)            (* resolve_dtype(d, dtype_from_element(e)): util.full_for_fill, assignment of one element *)
+| PFillR (d : dtype) (e : elem)           (* resolve_dtype(dtype_from_element(e), d): fillna of one element, IndexGO.append *)
 | PElem (e : elem)                        (* util.full_for_fill(None, ., e): a region made of the fill value only *)
 | PPair (d1 d2 : dtype)                   (* resolve_dtype(d1, d2): array meets array *)
+| PSteps (d : dtype) (es : list elem)     (* IndexGO.extend: one resolve_dtype(dtype_from_element(e), acc) per appended label *)
 | PConcat (d : dtype) (ds : list dtype)   (* util.concat_resolved *)
 | PIterDt (d : dtype) (ds : list dtype)   (* util.resolve_dtype_iter: row consolidation, Frame.values *)
 | PIter (es : list elem).                 (* util.iterable_to_array_1d(values, dtype=None) *)
@@ -396,8 +407,10 @@ Definition plan_dtype (p : plan) : res dtype :=
   match p with
   | PKeep d => Ok d
   | PFill d e => Ok (resolve d (elem_dtype e))
+  | PFillR d e => Ok (resolve (elem_dtype e) d)
   | PElem e => Ok (elem_dtype e)
   | PPair d1 d2 => Ok (resolve d1 d2)
+  | PSteps d es => Ok (fold_left (fun acc e => resolve (elem_dtype e) acc) es d)
   | PConcat d ds => Ok (concat_loop d ds)
   | PIterDt d ds => Ok (resolve_iter_loop d ds)
   | PIter es => if f_obj (iter_flags es) then Ok DObj else np_discover es
@@ -435,15 +448,6 @@ Definition M_dtype_check (p : plan) (od : dtype) : bool :=
 Definition S_cells (cells : list src) (obs : list cv) : bool := S_check (map src_val cells) obs.
 
 (* ------------------------------------------------------------------ guards of the no-loss theorem *)
-Definition wf_dtype (d : dtype) : bool :=
-  match d with
-  | DInt _ b => (b =? 1) || (b =? 2) || (b =? 4) || (b =? 8)
-  | DFlt b => (b =? 2) || (b =? 4) || (b =? 8) || (b =? 16)
-  | DCplx b => (b =? 4) || (b =? 8) || (b =? 16) || (b =? 32)
-  | DStr n | DBytes n => 0 <=? n
-  | _ => true
-  end.
-
 Definition big_int (d : dtype) : bool := match d with DInt _ b => 8 <=? b | _ => false end.
 Definition small_inexact (d : dtype) : bool :=
   match d with DFlt b => b <=? 8 | DCplx b => b <=? 16 | _ => false end.
@@ -478,3 +482,15 @@ Fixpoint fold_ok (acc : dtype) (ds : list dtype) : bool :=
   | [] => true
   | d :: rest => negb (lossy_pair acc d) && fold_ok (resolve acc d) rest
   end.
+
+(* value-level guard of the n-ary theorems: at every step of the fold a time value fits the unit reached *)
+Fixpoint fold_fits (acc : dtype) (ds : list dtype) (v : cv) : bool :=
+  match ds with
+  | [] => true
+  | d :: rest => time_fits (resolve acc d) v && fold_fits (resolve acc d) rest v
+  end.
+
+(* what the flag loop of prepare_iter_for_array decides, stated without the loop *)
+Definition is_other_e (e : elem) : bool := negb (is_tuple_e e) && negb (is_str_e e).
+Definition iter_object_spec (es : list elem) : bool :=
+  existsb is_tuple_e es || (existsb is_str_e es && existsb is_other_e es) || (existsb is_big_e es && existsb is_inexact_e es).
